@@ -223,6 +223,31 @@ def reader_loops(fx):
     return out
 
 
+def lenient_arms(lp):
+    """Arms that accept content without naming it and without failing: `(_, Event::Start(tag)) => skip`.  Such an arm turns
+    'any other content is an error' (and 'a repeated one-shot element is an error': the repeat fails its `is_none` guard and falls
+    through to the next arm that matches its event kind) into silent acceptance."""
+    out = []
+    for a in lp.arms:
+        if a.catch_all or not (a.kinds & {"Start", "Empty", "Text", "CData"}):
+            continue
+        if a.name is None and "returnResult::Err(" not in a.body_text():
+            out.append(a)
+    return out
+
+
+def repeated_names(lp):
+    """Element names handled by more than one arm for the same event kind (the later arm receives what the first one's guard refuses)."""
+    seen, out = {}, []
+    for a in lp.arms:
+        if a.is_element() and a.name:
+            for k in a.kinds & {"Start", "Empty"}:
+                if (a.name, k) in seen:
+                    out.append(a)
+                seen[(a.name, k)] = a
+    return out
+
+
 def short_fn(fn):
     """Readable, stable name of a reader function (generics of the self type kept)."""
     s = fn
